@@ -11,7 +11,7 @@ ID = "C03"
 LEAN_MODULES = ["FaxVerif.C03.Theorems"]
 LEAN_SOURCES = ["FaxVerif/C03", "FaxVerif/Gen", "FaxVerif/Cpp"]
 DRIVER = cgroup.DRIVER
-SETUP_MODULES = ["FaxVerif.Cpp.Json", "FaxVerif.Gen.Render", "FaxVerif.C03.Spec", "FaxVerif.Cpp.Check"]  # what the driver imports
+SETUP_MODULES = cgroup.DRIVER_IMPORTS  # what the driver imports
 THEOREMS = [
     "FaxVerif.C03.schema_names",
     "FaxVerif.C03.schema_own_storage",
